@@ -122,6 +122,7 @@ func NewReport(property string) *Report {
 			limit = max(limit/int64(n), 1<<30)
 		}
 		debug.SetMemoryLimit(limit)
+		memLimit = limit
 	}
 	return &Report{
 		Property: property, Tier: tier, Seed: seed, Level: "model_checking",
@@ -190,6 +191,9 @@ func (r *Report) Extra(key string, v any) {
 
 // Fail records one failing case. size orders witnesses (smallest kept).
 func (r *Report) Fail(f Failure, size int) {
+	if watchdogNote != "" {
+		f.Detail += watchdogNote
+	}
 	r.mu.Lock()
 	c := r.classes[f.Class]
 	if c == nil {
@@ -545,6 +549,31 @@ func NewWatchdog(n int, limit time.Duration, on func(desc string)) *Watchdog {
 		for {
 			time.Sleep(time.Second)
 			now := int64(VirtualNow())
+			// memory guard: the soft limit keeps garbage down, so a heap far above it is live data that one running
+			// case keeps producing (a decoder building an endless value). The kernel would kill the process without
+			// a word; instead the longest-running case is reported, as for a case that does not terminate.
+			if guard := memoryGuard(); guard > 0 {
+				var ms runtime.MemStats
+				runtime.ReadMemStats(&ms)
+				if ms.HeapAlloc > uint64(guard) {
+					oldest, at := -1, int64(0)
+					for i := range w.slots {
+						if s := atomic.LoadInt64(&w.slots[i].start); s != 0 && (oldest < 0 || s < at) {
+							oldest, at = i, s
+						}
+					}
+					if oldest >= 0 {
+						d, _ := w.slots[oldest].desc.Load().(func() string)
+						desc := "?"
+						if d != nil {
+							desc = d()
+						}
+						watchdogNote = fmt.Sprintf(" [stopped by the memory guard, not by the clock: the heap had grown to %d MiB while this case, the longest-running one, was executing]", ms.HeapAlloc>>20)
+						w.on(desc)
+						return
+					}
+				}
+			}
 			for i := range w.slots {
 				s := atomic.LoadInt64(&w.slots[i].start)
 				if s != 0 && time.Duration(now-s) > limit {
@@ -560,6 +589,19 @@ func NewWatchdog(n int, limit time.Duration, on func(desc string)) *Watchdog {
 		}
 	}()
 	return w
+}
+
+// watchdogNote is appended to the detail of failures recorded after the memory guard fired.
+var watchdogNote string
+
+var memLimit int64
+
+// memoryGuard is the heap size above which the watchdog stops the run (0: no guard).
+func memoryGuard() int64 {
+	if memLimit <= 0 {
+		return 0
+	}
+	return max(memLimit*23/10, 6<<30)
 }
 
 // Begin marks slot i as running a case described (lazily) by desc.
